@@ -307,6 +307,19 @@ def run(ctx):
                                         # a property that hands out (an element of) another field is a view of that field
                                         prop_ = next((m_ for c2_ in model.mro(ci_) for m_ in c2_.node.body if isinstance(m_, ast.FunctionDef) and m_.name == fld_
                                                       and any(norm(d_) == 'property' for d_ in m_.decorator_list)), None)
+                                        if prop_ is None:
+                                            # ... or a property object made by a module-level factory: `query = _first_arg_property()` in the class body
+                                            for c2_ in model.mro(ci_):
+                                                for st2_ in c2_.node.body:
+                                                    if isinstance(st2_, ast.Assign) and len(st2_.targets) == 1 and isinstance(st2_.targets[0], ast.Name) \
+                                                            and st2_.targets[0].id == fld_ and isinstance(st2_.value, ast.Call) and isinstance(st2_.value.func, ast.Name):
+                                                        fac_ = next((d_ for d_ in ctx.src.tree(c2_.file).body if isinstance(d_, ast.FunctionDef)
+                                                                     and d_.name == st2_.value.func.id), None)
+                                                        if fac_ is not None:
+                                                            prop_ = next((m_ for m_ in ast.walk(fac_) if isinstance(m_, ast.FunctionDef) and m_ is not fac_
+                                                                          and any(norm(d_) == 'property' for d_ in m_.decorator_list)), None)
+                                                if prop_ is not None:
+                                                    break
                                         if prop_ is not None:
                                             rets_ = [r_.value for r_ in ast.walk(prop_) if isinstance(r_, ast.Return) and r_.value is not None]
                                             if len(rets_) == 1:
